@@ -103,6 +103,9 @@ fn run(prog: &Program, opt: &HashMap<String, Vec<String>>) {
 	it.seed = seed;
 	it.f32_mode = prog.features.contains("value_type_f32");
 	it.rng ^= seed.wrapping_mul(0x2545F4914F6CDD1D);
+	if let Some(v) = opt.get("max-steps").and_then(|v| v.last()) {
+		it.max_steps = v.parse().unwrap_or(it.max_steps);
+	}
 	if opt.contains_key("no-merge") {
 		it.merge_enabled = false;
 	}
